@@ -121,6 +121,52 @@ def reads_bloom(rng, f, keys, other, sc, hf, counting):
     return done
 
 
+def wl_unexportable(ctx, rng, case):
+    """the one reachable Bloom state that cannot be exported: the union / intersection of completely set filters carries the documented
+    sentinel -1 as element count.  Every read-only call - including the exports, which are REFUSED in that state - must leave cells and
+    counters exactly as they were."""
+    import probables as P
+
+    counting = case.index % 2 == 1
+    cls = P.CountingBloomFilter if counting else P.BloomFilter
+    est, rate = rng.choice([(1, 0.5), (1, 0.3), (2, 0.4), (1, 0.1)])
+    a, b = cls(est, rate), cls(est, rate)
+    i = 0
+    while (min(bl.cells_of(a)) == 0 if counting else any(x != 0xFF for x in bl.bits_of(a)[:-1]) or bin(bl.bits_of(a)[-1]).count("1") < (a.number_bits - 1) % 8 + 1) and i < 4000:
+        a.add(f"fill-{i}")
+        b.add(f"fill-{i}")
+        i += 1
+    u = a.union(b) if rng.random() < 0.5 else a.intersection(b)
+    case.desc = {"cls": cls.__name__, "est": est, "rate": rate, "bits": a.number_bits, "kind": "completely set filters"}
+    if u is None or u.elements_added >= 0:
+        return
+    ctx.count("states_with_the_sentinel_element_count")
+    sc = bl.Scratch(ctx, case)
+    try:
+        def st(o):
+            return {"cells": bl.cells_of(o), "elements_added": o.elements_added, "geometry": (o.number_bits, o.number_hashes, o.estimated_elements, o.false_positive_rate)}
+
+        before, before_a = st(u), st(a)
+        done = []
+        for name, call in (("bytes", lambda: bytes(u)), ("export(path)", lambda: u.export(sc.path("x"))), ("export(file object)", lambda: u.export(io.BytesIO())),
+                           ("export_hex", lambda: u.export_hex()), ("export_c_header", lambda: u.export_c_header(sc.path("h"))), ("str", lambda: str(u)),
+                           ("check", lambda: u.check("fill-0")), ("estimate_elements", lambda: u.estimate_elements()), ("current_false_positive_rate", lambda: u.current_false_positive_rate()),
+                           ("union as argument", lambda: a.union(u)), ("jaccard_index", lambda: u.jaccard_index(a))):
+            try:
+                call()
+                done.append(name)
+            except Exception as e:
+                done.append(f"{name}: refused ({type(e).__name__})")
+            same(ctx, before, st(u), f"{cls.__name__} with element count {before['elements_added']} after the read-only call {done[-1]}")
+        same(ctx, before_a, st(a), "the operand of the set operation")
+        case.op("reads", done)
+        ctx.count("read_batches")
+        ctx.count("read_only_calls", len(done))
+        case.nontrivial = True
+    finally:
+        sc.cleanup()
+
+
 def wl_bloom(ctx, rng, case):
     import probables as P
 
@@ -553,6 +599,7 @@ PROP = Prop(
           "Every case is non-trivial; distinct by hash of (parameters, operations)."),
     workloads=[
         Workload("bloom", wl_bloom, quick=600, thorough=200000),
+        Workload("unexportable", wl_unexportable, quick=24, thorough=600),
         Workload("expanding", wl_expanding, quick=300, thorough=100000),
         Workload("sketch", wl_sketch, quick=700, thorough=250000),
         Workload("cuckoo", wl_cuckoo, quick=400, thorough=150000),
